@@ -3,7 +3,8 @@ From Coq Require Import ZArith Znumtheory QArith Lia Bool.
 From C10 Require Import Model ProofsBase ProofsCtor.
 Local Open Scope Z_scope.
 
-(* (T)(num/den) is trunc: toward zero *)
+(* (T)(num/den) is trunc: toward zero.  The first conjunct is definitional (conv_int and trunc have the same body); the statement
+   with the range of T and the cast, and with trunc characterised by |v| <= |x| < |v|+1, is Conv_int_T_stmt (ProofsAudit.v) *)
 Definition Conv_int_stmt := forall x, 0 < den x ->
   conv_int x = trunc x /\ conv_int x = (if 0 <=? num x then floor x else ceil x) /\
   (canon x -> den x = 1 -> conv_int x = num x).
